@@ -192,6 +192,7 @@ class TopoModel(Model):
             out = self.apply(ev)
             if out[0] != 'ok':
                 raise RuntimeError(f'root {root}: {ev} -> {out}')
+        self._last_ev = ('root-' + root,)
 
     def snapshot(self):
         return (world.snapshot_shared(), world.UUID_SEAM.counter, self.t.graph_model.graph_id)
@@ -671,6 +672,10 @@ ROOT_SCRIPTS = {
            ('add_service', 's2', 'L3VPN', (('f1', 'f1-int'), ('n1', 'sub1'))),
            ('add_service', 's1', 'L2Bridge', (('n1', 'c2-p1'),)),
            ('peer', 's1', 's2')],
+    # R3: names chosen so that two derived service-port names coincide ('n1' + 'xx-yy-p1' and 'n1-xx' + 'yy-p1')
+    'R3': [('add_node', 'n1', 'S1', 'VM', False), ('add_node', 'n1-xx', 'S1', 'VM', False),
+           ('add_component', 'n1', 'xx-yy', 'SharedNIC_ConnectX_6'), ('add_component', 'n1-xx', 'yy', 'SharedNIC_ConnectX_6'),
+           ('add_service', 's1', 'L2Bridge', (('n1', 'xx-yy-p1'), ('n1-xx', 'yy-p1')))],
     'S0': [],
     'S1': [('sub_add_server', 'w1'), ('sub_add_switch', 'sw'), ('sub_add_nic', 'w1', 'nic1'),
            ('sub_add_link', 'l1', (('w1', 'nic1-p1'), ('sw', 'sw-p1')), 'Patch')],
